@@ -10,9 +10,12 @@ import itertools
 import math
 import numpy as np
 from .. import common
+from ..translator import py2lean
 from ..common import enc, ask, call
 
 LEVEL = "proof"
+TRUSTED = [py2lean.trusted_note("sliced")]
+PROP_FILES = ["PersimVerif/Props/C15.lean", py2lean.prop_file("sliced")]
 RULE = ("pairs/triples of diagrams from one PRNG: sizes 0-8 (thorough 0-20), coordinates from lattice/half/dyadic/decimal/"
         "uniform modes (scales 2^-20..2^20), duplicates, diagonal points, then with prob 1/2 shifted along the diagonal or "
         "reflected so that coordinates of either sign occur; kinds random / reordered-equal / nearly-equal / one or both empty; "
@@ -283,7 +286,13 @@ def search_failing_input(ctx, A, B, M, op, line, code, model):
 
 # ----------------------------------------------------------------------------- run
 
+def pre_build(ctx):
+    """source translator (DESIGN.md 3.2): regenerate Generated/SrcSliced.lean from PERSIM_ROOT's source"""
+    py2lean.pre_build(ctx, ("sliced",))
+
+
 def run(ctx):
+    py2lean.report_broken(ctx, PROP_FILES)
     r = ctx.rng
     ctx.extra["source_digest"] = {"persim/sliced_wasserstein.py": common.source_digest("persim/sliced_wasserstein.py", ["sliced_wasserstein"])}
     nmax = 20 if ctx.thorough else 8
@@ -404,3 +413,4 @@ MANIFEST = {
             "makes it inexact by ~4e-8 relative, covered only by the [T] streams (tolerance 1e-6 of the coordinate scale).",
     "technique": "Lean 4 theorems over a hand-written model + differential correspondence with the real code + metamorphic tests",
 }
+MANIFEST["note"] += " " + py2lean.manifest_note("sliced")
